@@ -1198,7 +1198,10 @@ def explore(scenario: Callable[[Ctx], Any], max_paths=20000, rlimit=20_000_000) 
         except PathEnd:
             outcome = 'end'
         except PyRaise as e:
+            # an exception of the executed code that no obligation of the scenario caught (expect_ok / outcome): the obligations that would
+            # have followed on this path were not stated - undecided and visible, never silently fewer obligations
             outcome, value = 'raise', e.exc
+            res.unsupported.append(f'Unsupported: the scenario was ended by an exception outside any obligation: {e.exc!r}'[:300])
         except Unsupported as e:
             res.unsupported.append(f'{type(e).__name__}: {e}')
             outcome = 'unsupported'
